@@ -48,7 +48,7 @@ class C13(TraceCheck):
     rule = ("straight-line programs over a pool seeded with 3 FmtStr values (multi-run, empty run, newline), operations: "
             "+ and += , str+, +str, * (counts -3..2), slicing, splice, insert, append, join, copy_with_new_atts, new_with_atts_removed, copy, fmtstr() "
             "re-wrapping, split, splitlines, ljust/rjust, copy_with_new_str, width_aware_slice, width_aware_splitlines, "
-            "delegated upper/strip, linesplit, == / dict lookup between a value and its raw-escape twin; observations (str, len, s, width, repr through the object vs rebuilt from fresh "
+            "delegated upper/strip, linesplit, == / dict lookup between a value and its raw-escape twin, iteration with every cell kept; observations (str, len, s, width, repr through the object vs rebuilt from fresh "
             "runs) and in-place edit attempts interleaved at random positions. Programs come from TLC (Pool.tla: exhaustive "
             "to depth 2 in BFS, simulation to depth 12). After every step the run lists of all live values are recorded "
             "without touching memos. distinct_nontrivial = distinct (operation, operand alias pattern, caches warm?) steps")
@@ -98,6 +98,8 @@ class C13(TraceCheck):
         for a in (1, 2, 3, 4):
             for n in (0, 1, 2):
                 progs.append([E("eqraw", a, a, n), E("observe", a)])
+            progs.append([E("iterate", a), E("observe", a)])
+            progs.append([E("add", a, 2), E("iterate", 5), E("observe", 5)])
         return progs
 
     def run_history(self, hist):
@@ -196,6 +198,21 @@ class C13(TraceCheck):
                         interleaved = True
                     else:
                         side = list(fa.width_aware_splitlines(2 + n % 3))
+                elif op == "iterate":
+                    # the value walked through the iteration protocol, every cell kept (list(f), unpacking, zip): each kept
+                    # cell must still be the character it was when it was handed out
+                    cells = list(fa)
+                    side = cells[:4] + cells[-1:] if len(cells) > 5 else cells      # (a few stay alive as later side results)
+                    interleaved = True
+                    calm = FmtStr(*(Chunk(str(c.s), dict(c.atts)) for c in fa.chunks))
+                    rec["robs"] = [views(x) for x in cells] + [{"n": len(cells)}]
+                    rec["rfresh"] = [views(calm[j]) for j in range(len(calm))] + [{"n": len(calm)}]
+                    it = iter(fa)
+                    first = next(it, None)
+                    second = next(it, None)
+                    if first is not None and second is not None:
+                        rec["robs"] += [views(first)]
+                        rec["rfresh"] += [views(calm[0])]
                 elif op == "eqraw":
                     # two values with the same terminal string but different text: one keeps a plain str operand that
                     # carries an escape sequence verbatim, the other is really formatted; one of them (or none, or both)
@@ -278,7 +295,7 @@ class C13(TraceCheck):
                     pool.append(res)
                 else:
                     extras.append(res)
-            extras.extend(side)
+            extras.extend(side[:25])        # (never more than the window of side results the trace keeps)
             if len(extras) > 30:
                 extras = extras[-30:]
                 rec["extras_reset"] = 1
